@@ -180,6 +180,11 @@ func (env *Env) resolveType(s string) (types.Type, *Sort) {
 	case "bigint":
 		return nil, sortBig
 	}
+	if o := types.Universe.Lookup(s); o != nil {
+		if tn, ok := o.(*types.TypeName); ok {
+			return tn.Type(), env.sortOfType(tn.Type())
+		}
+	}
 	if strings.HasPrefix(s, "*") {
 		t, _ := env.resolveType(s[1:])
 		if t == nil {
@@ -903,6 +908,50 @@ func (env *Env) evalCall(x *ECall) SV {
 	case "allocated":
 		// allocated(r): r was allocated before the state being evaluated
 		return SV{Bin(sortBool, "<=", arg(0).V, env.st.alloc), tb}
+	case "strbytes":
+		// strbytes(s): the bytes of a string as an array (what []byte(s) contains)
+		v := arg(0)
+		if v.V.Sort.Kind != KStr {
+			specFail("strbytes of a non-string")
+		}
+		return SV{V: App(vc.eng.st.ArrayOf(sortInt, sortInt), "str2arr", v.V)}
+	case "lower":
+		v := arg(0)
+		return SV{App(sortStr, "strlower", v.V), types.Typ[types.String]}
+	case "box":
+		// box(x): the interface value holding x (for scalars and strings)
+		v := arg(0)
+		if v.T == nil {
+			specFail("box: value has no Go type")
+		}
+		switch v.V.Sort.Kind {
+		case KInt:
+			return SV{mkIface(IntLit(int64(vc.eng.tagOf(v.T))), v.V), types.NewInterfaceType(nil, nil)}
+		case KStr:
+			return SV{mkIface(IntLit(int64(vc.eng.tagOf(v.T))), App(sortInt, "str2int", v.V)), types.NewInterfaceType(nil, nil)}
+		case KBool:
+			return SV{mkIface(IntLit(int64(vc.eng.tagOf(v.T))), Ite(v.V, IntLit(1), IntLit(0))), types.NewInterfaceType(nil, nil)}
+		}
+		specFail("box: only scalars and strings can be boxed in a spec")
+	case "ctxget":
+		// ctxget(ctx, key): the value stored in a context under key (context.WithValue / Value model)
+		c, k := arg(0), arg(1)
+		if k.T == nil {
+			specFail("ctxget: key has no Go type")
+		}
+		vc.ctxDecl()
+		var kb *Term
+		switch k.V.Sort.Kind {
+		case KInt:
+			kb = mkIface(IntLit(int64(vc.eng.tagOf(k.T))), k.V)
+		case KStr:
+			kb = mkIface(IntLit(int64(vc.eng.tagOf(k.T))), App(sortInt, "str2int", k.V))
+		case KIface:
+			kb = k.V
+		default:
+			specFail("ctxget: unsupported key sort")
+		}
+		return SV{App(sortIface, "ctxval", c.V, kb), types.NewInterfaceType(nil, nil)}
 	case "ival":
 		return SV{ifaceVal(arg(0).V), ti}
 	case "ref":
@@ -1015,6 +1064,12 @@ func (env *Env) evalCall(x *ECall) SV {
 		case "string", "int", "int64", "uint64":
 			t, s := env.resolveType(x.Fun)
 			v := arg(0)
+			if x.Fun == "string" && v.V.Sort.Kind == KSlice {
+				// string([]byte): the string made of the slice's current contents
+				_, h := vc.arrHeap(env.st, sortInt)
+				arr := Select(h, sliceArr(v.V), vc.eng.st.ArrayOf(sortInt, sortInt))
+				return SV{App(sortStr, "bytes2str", arr, sliceOff(v.V), sliceLen(v.V)), t}
+			}
 			if s.Name != v.V.Sort.Name {
 				specFail("conversion %s(...) changes the sort", x.Fun)
 			}
